@@ -10,16 +10,19 @@ _LEVEL_NOTE = ("Trusted: Lean 4.33 kernel; axioms propext/Classical.choice/Quot.
 
 SPEC = {
     "C01": {
-        "LEAN": {"modules": ["GfaProofs.Bridge.Regex", "GfaProofs.Lemmas.CigarText", "GfaProofs.C20", "GfaProofs.C01"],
-                 "support": ["GfaProofs.Lemmas.Digits", "GfaModel.Field", "GfaModel.Line"],
+        "LEAN": {"modules": ["GfaProofs.Bridge.Regex", "GfaProofs.Lemmas.CigarText", "GfaProofs.C20", "GfaProofs.C01", "GfaProofs.C01Doc"],
+                 "support": ["GfaProofs.Lemmas.Digits", "GfaModel.Field", "GfaModel.Line", "GfaModel.DocOrder"],
                  "theorems": ["Gfa.C01.splitOn_intercalate", "Gfa.C01.intercalate_splitOn", "Gfa.C01.tag_parse_print",
                               "Gfa.C01.line_parse_print", "Gfa.C01.write_fixed_point",
+                              "Gfa.C01Doc.docOrder_perm", "Gfa.C01Doc.writeOrder_perm", "Gfa.C01Doc.writeOrder_group",
+                              "Gfa.C01Doc.writeOrder_idem",
                               "Gfa.cigar_parse_print", "Gfa.aln_parse_print", "Gfa.natOf_digitsOf", "Gfa.intOf?_intStr",
                               "Gfa.C20.int_roundtrip", "Gfa.C20.str_roundtrip", "Gfa.C20.chr_roundtrip", "Gfa.C20.bytes_roundtrip",
                               "Gfa.Bridge.Regex.re_i", "Gfa.Bridge.Regex.re_Z", "Gfa.Bridge.Regex.re_A", "Gfa.Bridge.Regex.re_H",
                               "Gfa.Bridge.Regex.re_B", "Gfa.Bridge.Regex.re_f", "Gfa.Bridge.Regex.re_J"]},
         "ASSUMPTIONS": ["f and J payloads are opaque in the model (Python float formatting / json codec): their round trip is decided by the oracle only",
-                        "document-level normalisations (header split, complement links, grouping) are decided by oracle + correspondence"],
+                        "the grouping of the written records by type is modelled (DocOrder.lean: a permutation, stable inside a group, a fixed point) and tied by the doc.order correspondence on record types; the other document-level normalisations (header split, complement links) are decided by the oracle",
+                        "the text model of a line keeps spellings; gfapy writes eagerly parsed tags (i, f, J) canonically even at level 0, so the line.parse correspondence asks the model about the written text and the value comparison is the oracle's"],
     },
     "C02": {
         "LEAN": {"modules": ["GfaProofs.Bridge.Geometry", "GfaProofs.Bridge.Connect", "GfaProofs.C02", "GfaProofs.C02Rename"], "support": ["GfaModel.Graph", "GfaModel.GraphObs", "GfaProofs.Lemmas.Graph", "GfaProofs.C09"],
